@@ -815,6 +815,8 @@ def sym_binop(interp, op, l, r):
 
 def tolerant_compare(f, l, r, rel=1e-9, abs_=1e-12):
     """comparison of concrete values when replaying a clause on floats"""
+    if isinstance(l, (int, np.integer)) and isinstance(r, (int, np.integer)):
+        return f(l, r)                      # integers are exact: no tolerance
     try:
         lf, rf = float(l), float(r)
     except (TypeError, ValueError):
